@@ -1,4 +1,5 @@
 import SeaQ.Model.Render
+import SeaQ.Lemmas.RenderBalance
 /-!
 # C08 — MySQL / Postgres statements carry every clause given, in grammar order
 
@@ -15,6 +16,14 @@ Stated over the statement rendering model (tied to the crate by the differential
   `JOIN .. ON`, and not as WHERE, and the SET columns are qualified (`mysql_update_join`); the other
   dialects write `FROM .. WHERE ..` (`other_update_from`).
 * `dialect_only_*`: constructs of one dialect are written in that dialect only.
+
+* `render_balanced`: **every** statement of the model (any nesting, all three dialects) is written with
+  balanced parentheses — reading the renderer's text and the caller-supplied raw text from depth 0 never
+  closes a parenthesis that is not open and ends at depth 0 — provided each piece of caller-supplied raw
+  text is balanced on its own and no `CustomWithExpr` template is expanded (`Balance.bad`; values,
+  identifiers and string literals are single tokens by C01 / C03 / C04).  `select_keywords_top_level`:
+  consequently every clause of a SELECT starts at parenthesis depth 0: the clause keywords a grammar
+  would split the statement at are never inside a sub-expression.
 
 Whether the clause *bodies* (expressions) parse back to what was given is C05; that the
 flat text parses into these clauses under each dialect's grammar is decided by the check's
@@ -169,5 +178,57 @@ theorem enum_cast_postgres (ty : String) (e : Ex) (h : ty.endsWith "[]" = false)
 theorem mysql_values_row (rows : List (List Val)) (a : String) :
     rTRef .mysql (.valuesList rows a) = [S "(", S "VALUES "] ++ rValueRows .mysql true rows ++ [S ")", S " AS ", .id a] := by
   simp [rTRef]
+
+/-! ## parentheses -/
+
+open SeaQ.Balance in
+/-- **every statement is written with balanced parentheses** -/
+theorem render_balanced (d : Backend) (q : Query) (h : bad (rQuery d q) = false) : scan 0 (rQuery d q) = some 0 := by
+  cases b_query d q with
+  | inl hb => rw [hb] at h; cases h
+  | inr hs => simpa using hs 0
+
+open SeaQ.Balance in
+/-- the same for every sub-rendering: an expression, a condition, a sub-select are balanced on their own,
+so a statement can be cut at its clause keywords without looking inside them -/
+theorem render_balanced_parts (d : Backend) (e : Ex) (s : Select) : B (rEx d e) ∧ B (rSelect d s) := ⟨b_ex d e, b_select d s⟩
+
+open SeaQ.Balance in
+/-- every clause of a SELECT is balanced on its own: reading the statement from its beginning, every clause
+keyword of `selectClauses` (FROM, WHERE, GROUP BY, HAVING, the set operators, ORDER BY, LIMIT, OFFSET, FOR)
+is met at parenthesis depth 0 -/
+theorem select_clauses_balanced (d : Backend) (s : Select) : ∀ c ∈ selectClauses d s, B c.2 := by
+  obtain ⟨with_, distinct, selects, from_, hints, sample, joins, where_, groups, having, unions, orders, limit, offset, lock, windowName, window⟩ := s
+  intro c hc
+  simp only [selectClauses, opt, List.mem_append, List.mem_ite_nil_right, List.mem_cons, List.not_mem_nil, or_false] at hc
+  rcases hc with ((((((((((((h | h) | h) | h) | h) | h) | h) | h) | h) | h) | h) | h) | h) <;>
+    first
+    | (obtain ⟨_, rfl⟩ := h)
+    | subst h
+  · exact b_optwith d with_
+  · exact B.app (B.app (B_S _ (by decide)) (b_rOptDistinct d distinct)) (b_sellist d true selects)
+  · exact B.app (B.app (B.app (B_S _ (by decide)) (b_trefs d true from_)) (B_ite (b_rHints hints true) B_nil)) (B_ite (b_rOptSample sample) B_nil)
+  · exact b_joins d joins
+  · exact b_holder d _ where_ (by decide)
+  · exact B.app (B_S _ (by decide)) (b_exlist d true groups)
+  · exact b_holder d _ having (by decide)
+  · exact b_unions d unions
+  · exact B.app (B_S _ (by decide)) (b_orders d true orders)
+  · exact b_rLimit _ limit (by decide)
+  · exact b_rLimit _ offset (by decide)
+  · exact b_rOptLock d lock
+  · exact b_optwindow d windowName window
+
+/-- non-vacuity: `SELECT COUNT("a") FROM (SELECT "a" FROM "t") AS "x" WHERE ("a" = ?) OR "a" IN (?, ?)` -/
+def demoNested : Query :=
+  .sel (.mk none none (.cons (.func (.std 6) [] (.cons (.col (.col "a")) .nil)) .none none .nil)
+    (.cons (.subq (.mk none none (.cons (.col (.col "a")) .none none .nil) (.cons (.named ⟨["t"], none⟩) .nil) [] none .nil .empty .nil .empty .nil .nil none none none "" none) "x") .nil)
+    [] none .nil
+    (.cond (.mk false true
+      (.consE (.bin (.col (.col "a")) (.std 10) (.value ⟨"Int", .int 1⟩))
+        (.consE (.bin (.col (.col "a")) (.std 6) (.tuple (.cons (.value ⟨"Int", .int 1⟩) (.cons (.value ⟨"Int", .int 2⟩) .nil)))) .nil))))
+    .nil .empty .nil .nil none none none "" none)
+open SeaQ.Balance in
+example : scan 0 (rQuery .postgres demoNested) = some 0 := render_balanced _ _ (by decide)
 
 end SeaQ.Props.C08
